@@ -14,9 +14,13 @@ module = "a fresh process with the same registrations"):
     observation script.
 oracle: clear_config did not raise, and the two observation transcripts are equal.
 """
+import enum
 import json
+import os
 import re
+import shutil
 import sys
+import tempfile
 
 from hypothesis import strategies as st
 
@@ -37,9 +41,14 @@ RULE = ('Hypothesis op lists: history of 1-14 ops (parse_config of 1-4 generated
         'unlock_config+bind; gin.constant outside/inside interactive_mode(), and blocks of 1-3 '
         'definitions inside one interactive_mode(), over names '
         '{X,a.X,b.a.X,Y,a.Y,c.Y,K,REQUIRED,invalid}; singleton use through config and through '
-        'singleton_value; queries; config-string reads), then clear_config(clear_constants in '
-        '{False,True}), then a fixed full snapshot + 0-8 generated follow-up ops (same op '
-        'language, outcomes recorded) + snapshot. Plus a bounded sweep of all sequences of <=2 '
+        'singleton_value; gin.constants_from_enum on two long-lived module-level enum classes under '
+        '3 module names, outside/inside interactive_mode(); parse_config_file of real temp files '
+        '(2 paths, optionally including one of 2 other files, optional failing statement in the '
+        'file and/or in the included file); queries; config-string reads), then clear_config(clear_constants in '
+        '{False,True}), then a fixed full snapshot (which also parses every pool path as a correct '
+        'file with a correct include) + 0-8 generated follow-up ops (same op language, outcomes '
+        'recorded) + snapshot (which finally generates every pool enum\'s constants under an '
+        'unused module name). Plus a bounded sweep of all sequences of <=2 '
         '(quick) / <=3 (thorough) constant definitions after a fixed parse(import, binding)+singleton-use+call+finalize prefix. '
         'Non-trivial = the history executed >=1 probe call, >=1 finalize or failed operation, and '
         '>=1 successful constant definition. Distinct = distinct case JSON.')
@@ -51,8 +60,13 @@ ASSUMPTIONS = [
     'interactive_mode(), the public way to define a name that is a dotted suffix of another',
     'gin.REQUIRED itself is never re-defined by a history (the property does not say which value '
     'a re-defined gin.REQUIRED should keep)',
-    'finalize hooks, file readers, search paths, dynamic registration and a dangling '
+    'finalize hooks, custom file readers, search paths, dynamic registration and a dangling '
     'enter_interactive_mode() are not part of histories: clear_config does not claim to reset them',
+    'config files are real files under one temp directory used by both sides (absolute paths, the '
+    'default reader); every file op writes all files it reads, and the directory is emptied '
+    'before the fresh side runs',
+    'enum classes are module-level objects of the check (inherited by every fork), i.e. the same '
+    'class object is used before and after the clear, as a long-lived program would',
     'exceptions are compared by their first builtin class in the MRO only, never by message',
     'reference cycles between bindings (f.p = @f()) are excluded by construction (references only '
     'point to probes later in a fixed order; macros hold literals only)',
@@ -64,7 +78,9 @@ FLOORS = {'nontrivial': (0.15, _S), 'pre:locked': (0.1, _S), 'pre:singleton-cach
           'hist:const-suffix-defined-after-longer': (0.03, _S),
           'hist:const-interactive-ok': (0.1, _S), 'hist:failed-op': (0.3, _S),
           'clear:constants-kept': (0.3, _S), 'clear:constants-dropped': (0.3, _S),
-          'survivors-kept>=1': (0.1, _S), 'obs:final-operative-readable': (0.6, _S)}
+          'survivors-kept>=1': (0.1, _S), 'obs:final-operative-readable': (0.6, _S),
+          'hist:enum-ok': (0.08, _S), 'hist:pfile-failed': (0.08, _S), 'hist:pfile-ok': (0.05, _S),
+          'hist:pfile-failed-with-faulty-include': (0.02, _S)}
 TECHNIQUE = ('model-free differential over generated operation histories: state after '
              'history+clear_config vs a fresh fork of the pristine process, compared through one '
              'shared observation script; bounded exhaustive sweep of short constant-definition '
@@ -129,6 +145,22 @@ def _req(r=gin.REQUIRED):
   return r
 
 
+class Color(enum.Enum):
+  """Long-lived (module-level) enum: the same class object before and after a clear."""
+  RED = 1
+  GREEN = 2
+
+
+class Shape(enum.Enum):
+  SQ = 'sq'
+
+
+ENUMS = [Color, Shape]
+EMODS = ['pal', 'c20m', None]                    # None: cls.__module__ ('vf.props.c20')
+MAINS = ['main.gin', 'exp.gin']                  # files live in TMP[0], shared by both sides
+INCS = ['base.gin', 'other.gin']
+TMP = [None]
+
 FNS = ['c20m.f', 'c20m.g', 'c20m.Ctor']          # references only point "to the right"
 WRAPPERS = {'c20m.f': W_F, 'c20m.g': W_G, 'c20m.Ctor': W_CTOR}
 PARAMS = ['p', 'q']
@@ -139,7 +171,10 @@ BAD_CONSTS = ['1X', 'a..X']
 # operand -> name for definitions: the X family is over-represented so that suffix pairs meet
 CONST_PICK = CONSTS + ['X', 'a.X', 'b.a.X', 'a.X'] + BAD_CONSTS
 MACROS = ['M', 'N']
-LOOKUPS = CONSTS + ['gin.REQUIRED', 'c.X', 'b.X'] + MACROS
+ENUM_LOOKUPS = ['pal.Color.RED', 'Color.RED', 'Color.GREEN', 'c20m.Color.GREEN', 'Shape.SQ',
+                'c20.Shape.SQ']
+LOOKUPS = CONSTS + ['gin.REQUIRED', 'c.X', 'b.X'] + MACROS + ENUM_LOOKUPS
+MAC_NAMES = CONSTS + MACROS + ['Color.RED', 'pal.Color.GREEN']   # %names usable in bindings
 IMPORTS = ['import math', 'import json as jj', 'from os import path', 'import os.path',
            'from collections import abc as cabc', 'import string']
 FAULTS = ['nope.p = 1', 'c20m.f.p = 1 +', 'c20m.f.zz = 1', 'import c20_no_such_module',
@@ -150,6 +185,27 @@ NVALS = 9
 def mkval(i):
   i %= NVALS
   return [0, 1, 'v', (1, 'a'), [1, 2], {'k': 1}, None, Token(7), Token(8)][i]
+
+
+def survivor_value(v):
+  """Rebuilds a constant value from its JSON form: pool index, or 'Class.MEMBER' of an enum."""
+  if isinstance(v, str):
+    cls, member = v.split('.')
+    return {c.__name__: c for c in ENUMS}[cls][member]
+  return mkval(v)
+
+
+def tmpdir():
+  if TMP[0] is None:
+    TMP[0] = tempfile.mkdtemp(prefix='c20_')
+  return TMP[0]
+
+
+def write_file(name, lines):
+  path = os.path.join(tmpdir(), name)
+  with open(path, 'w') as f:
+    f.write('\n'.join(lines) + '\n')
+  return path
 
 
 def scoped(scope, name):
@@ -201,6 +257,8 @@ class Describer:
               'q': self.d(v.q, depth + 1)}
     if isinstance(v, Token):
       return {'Token': v.n, 'obj': self.serial(v)}
+    if isinstance(v, enum.Enum):
+      return 'enum:%s.%s' % (type(v).__name__, v.name)
     for name, w in WRAPPERS.items():
       if v is w:
         return 'wrapper:' + name
@@ -217,8 +275,7 @@ def render_val(v):
   if k == 'ref':
     return '@' + scoped(SCOPES[v[1] % len(SCOPES)], FNS[v[2] % len(FNS)]) + ('()' if v[3] else '')
   if k == 'mac':
-    names = CONSTS + MACROS
-    return '%' + names[v[1] % len(names)]
+    return '%' + MAC_NAMES[v[1] % len(MAC_NAMES)]
   if k == 'sing':
     return '@%s/gin.singleton()' % KEYS[v[1] % len(KEYS)]
   if k == 'req':
@@ -270,6 +327,17 @@ def render_stmt(s):
   raise OutOfDomain('statement kind ' + str(k))
 
 
+def render_lines(stmts, fault):
+  lines = []
+  for s in stmts:
+    lines.extend(render_stmt(s))
+  if fault is not None:
+    at = fault[1] % (len(stmts) + 1)
+    pos = sum(len(render_stmt(s)) for s in stmts[:at])
+    lines.insert(pos, FAULTS[fault[0] % len(FAULTS)])
+  return lines
+
+
 class Machine:
   """Executes ops against Gin.  Used for the history (outcomes dropped) and, with the same code,
   for the follow-up on both sides (outcomes recorded)."""
@@ -281,6 +349,7 @@ class Machine:
     self.order = []
     self.n_calls = 0
     self.n_failed = 0
+    self.failed_mains = set()
 
   def attempt(self, fn):
     try:
@@ -303,21 +372,14 @@ class Machine:
       self.labels.add('hist:const-suffix-defined-after-longer')
     if any(n.endswith('.' + name) or name.endswith('.' + n) for n in others):
       self.labels.add('hist:const-suffix-coexist')
-    self.defined[name] = (vi % NVALS, obj)
+    self.defined[name] = (vi % NVALS if isinstance(vi, int) else vi, obj)
     self.labels.add('hist:const-interactive-ok' if interactive else 'hist:const-ok')
 
   def run(self, op):
     k = op[0]
     if k == 'parse':
       _, stmts, fault, skip = op
-      lines = []
-      for s in stmts:
-        lines.extend(render_stmt(s))
-      if fault is not None:
-        at = fault[1] % (len(stmts) + 1)
-        pos = sum(len(render_stmt(s)) for s in stmts[:at])
-        lines.insert(pos, FAULTS[fault[0] % len(FAULTS)])
-      text = '\n'.join(lines) + '\n'
+      text = '\n'.join(render_lines(stmts, fault)) + '\n'
       out = self.attempt(lambda: (gin.parse_config(text, skip_unknown=bool(skip)), None)[1])
       self.labels.add('hist:parse-ok' if out[0] == 'ok' else 'hist:parse-failed')
       if any(s[0] == 'import' for s in stmts):
@@ -395,6 +457,51 @@ class Machine:
             done.append(name)
         return done
       return self.attempt(block)
+    if k == 'enum':
+      # constants_from_enum on a long-lived enum class (same class object before/after the clear)
+      _, ei, mi, interactive = op
+      cls = ENUMS[ei % len(ENUMS)]
+      mod = EMODS[mi % len(EMODS)]
+
+      def generate():
+        if interactive:
+          with gin.config.interactive_mode():
+            gin.constants_from_enum(cls, module=mod)
+        else:
+          gin.constants_from_enum(cls, module=mod)
+      out = self.attempt(generate)
+      self.labels.add('hist:enum-ok' if out[0] == 'ok' else 'hist:enum-rejected')
+      for member in cls:
+        full = '%s.%s.%s' % (mod or cls.__module__, cls.__name__, member.name)
+        if out[0] == 'ok':
+          self.note_const(full, '%s.%s' % (cls.__name__, member.name), member, True, interactive)
+        elif full not in self.defined:
+          # rejected half-way: members defined before the rejection exist (exact-name query)
+          try:
+            there = gin.query_parameter(full) is member
+          except Exception:  # pylint: disable=broad-except
+            there = False
+          if there:
+            self.note_const(full, '%s.%s' % (cls.__name__, member.name), member, True, interactive)
+      return out
+    if k == 'pfile':
+      # parse_config_file of a real file (optionally including a second one); the op writes every
+      # file it uses, so it means the same in a cleared and in a fresh process
+      _, pi, stmts, fault, inc = op
+      lines = render_lines(stmts, fault)
+      if inc is not None:
+        incpath = write_file(INCS[inc[0] % len(INCS)], render_lines(inc[1], inc[2]))
+        lines.insert(0, "include '%s'" % incpath)
+      main = write_file(MAINS[pi % len(MAINS)], lines)
+      out = self.attempt(lambda: (gin.parse_config_file(main), None)[1])
+      if out[0] == 'ok':
+        self.labels.add('hist:pfile-ok')
+      else:
+        self.labels.add('hist:pfile-failed')
+        self.failed_mains.add(MAINS[pi % len(MAINS)])
+        if inc is not None and inc[2] is not None:
+          self.labels.add('hist:pfile-failed-with-faulty-include')
+      return out
     if k == 'use_singleton':
       # compound: constructor + a binding that references the singleton + the call that caches it
       _, ki, sc, fn, pa, csc = op
@@ -504,7 +611,25 @@ def snapshot(desc, tag, probing):
     for name in LOOKUPS:
       rec('%' + name, lambda: macro_lookup(name))
     rec('reset cons.x', lambda: gin.parse_config('c20m.cons.x = 0'))   # leave no dangling macro
+    # Every pool path is parsed as a (correct) file including a (correct) file: whatever was done
+    # with these paths before the clear, a fresh process just parses them.
+    for n, mname in enumerate(MAINS):
+      def fileprobe():
+        incpath = write_file(INCS[n % len(INCS)], ['c20m.cons.x = 1'])
+        main = write_file(mname, ["include '%s'" % incpath, 'c20m.cons.x = 0'])
+        gin.parse_config_file(main)
+      rec('parse_config_file ' + mname, fileprobe)
     strings()
+    if tag == 'Z':
+      # Last of all: the constants of every pool enum can be generated under a module name no
+      # history uses, exactly as in a fresh process.
+      for cls in ENUMS:
+        rec('constants_from_enum zz.' + cls.__name__,
+            lambda: (gin.constants_from_enum(cls, module='zz'), None)[1])
+        for member in cls:
+          full = 'zz.%s.%s' % (cls.__name__, member.name)
+          rec('query-constant ' + full, lambda: gin.query_parameter(full))
+      rec('%zz.Color.RED', lambda: macro_lookup('zz.Color.RED'))
   return out
 
 
@@ -569,6 +694,10 @@ def history_side(case):
                                        if isinstance(m.defined[n][1], Token)]
   obs, fm = observe(case, seeded)
   labels.update(l.replace('hist:', 'follow:') for l in fm.labels)
+  if 'hist:enum-ok' in m.labels and any(op[0] == 'enum' for op in case['follow']):
+    labels.add('enum:generated-before-and-after-clear')
+  if any(op[0] == 'pfile' and MAINS[op[1] % len(MAINS)] in m.failed_mains for op in case['follow']):
+    labels.add('pfile:path-parsed-again-after-clear')
   z_oper = [o for w, o in obs if w == 'Z:operative_config_str']
   labels.add('obs:final-operative-readable' if z_oper and z_oper[-1][0] == 'ok'
              else 'obs:final-operative-unreadable')
@@ -583,7 +712,7 @@ def reference_side(case, survivors):
   if not case['clear_constants'] and survivors:
     with gin.config.interactive_mode():
       for name, vi in survivors:
-        obj = mkval(vi)
+        obj = survivor_value(vi)
         gin.constant(name, obj)
         if isinstance(obj, Token):
           seeded.append(obj)
@@ -611,11 +740,17 @@ def check_case(case):
   # Pristine-state guard: this child must not have touched Gin yet.
   if gin.config_is_locked() or gin.config_str() or gin.operative_config_str():
     return {'status': 'inconclusive', 'reason': 'runner process is not pristine'}
-  got = iso.run(history_side, case)
-  if got['status'] != 'ok':
-    return got                       # violation (unexpected exception) / ood / inconclusive
-  info = got['info']
-  ref = json.loads(json.dumps(reference_side(case, info['survivors'])))
+  TMP[0] = tempfile.mkdtemp(prefix='c20_')     # one directory: both sides see the same paths
+  try:
+    got = iso.run(history_side, case)
+    if got['status'] != 'ok':
+      return got                     # violation (unexpected exception) / ood / inconclusive
+    info = got['info']
+    shutil.rmtree(TMP[0], ignore_errors=True)  # the fresh process starts without those files
+    os.makedirs(TMP[0])
+    ref = json.loads(json.dumps(reference_side(case, info['survivors'])))
+  finally:
+    shutil.rmtree(TMP[0], ignore_errors=True)
   obs = info['obs']
   diff = first_diff(obs, ref)
   n_diff = sum(1 for x, y in zip(obs, ref) if x != y)
@@ -651,7 +786,7 @@ def check_case(case):
 
 
 # ----------------------------------------------------------------------------- generation
-_i = st.integers(0, 13)
+_i = st.integers(0, 19)
 _b = st.booleans()
 
 
@@ -682,6 +817,7 @@ def _stmt():
 
 def _op():
   fault = st.none() | st.none() | st.tuples(_i, _i).map(list)
+  pfault = st.none() | st.tuples(_i, _i).map(list)
   return st.one_of(
       st.tuples(st.just('parse'), st.lists(_stmt(), min_size=1, max_size=4), fault,
                 st.sampled_from([False, False, False, True])),
@@ -695,6 +831,10 @@ def _op():
       st.tuples(st.just('const'), _i, _i, _b),
       st.tuples(st.just('const'), _i, _i, _b),
       st.tuples(st.just('const_block'), st.lists(st.tuples(_i, _i).map(list), min_size=1, max_size=3)),
+      st.tuples(st.just('enum'), _i, _i, _b),
+      st.tuples(st.just('pfile'), _i, st.lists(_stmt(), min_size=1, max_size=3), pfault,
+                st.none() | st.tuples(_i, st.lists(_stmt(), min_size=0, max_size=2),
+                                      pfault).map(list)),
       st.tuples(st.just('use_singleton'), _i, _i, _i, _i, _i),
       st.tuples(st.just('single_api'), _i, _b),
       st.tuples(st.just('query'), _i, _i, _i),
